@@ -170,6 +170,8 @@ def oracle(case):
     out = Outcome()
     src = case["src"]
     opts = dict(case.get("opts", {}))
+    if "column_fmt" in opts:
+        opts["column_fmt"] = {int(k): v for k, v in opts["column_fmt"].items()}  # JSON replays carry string keys
     rk = dict(case.get("read_kw", {}))
     nwrites = case.get("writes", 2)
     las = inputs.load(src, **rk)
@@ -308,6 +310,19 @@ EDIT = st.one_of(
 ).map(list)
 
 
+@st.composite
+def opts_with_index_format(draw):
+    """Writer options; 1 in 4 with a format of its own for the index column (finer or coarser than fmt): what the header
+    states must follow the index as THAT format writes it."""
+    o = dict(draw(inputs.WRITER_OPTS))
+    if draw(st.integers(0, 3)) == 0:
+        o["column_fmt"] = {"0": draw(st.sampled_from(["%.7f", "%.1f", "%.3f", "%.6e"]))}
+    return o
+
+
+OPTS = opts_with_index_format()
+
+
 def corpus_cases(tier):
     optsets = [{}, {"version": 1.2, "wrap": True}, {"version": 2, "wrap": False, "fmt": "%.3f"}]
     editsets = [[], [["index_shift", 0.5]], [["index_reverse"]], [["index_inplace", 0.25]], [["curve_set", 0, 1, 1.5], ["header_set", "W", 0, "edited"]],
@@ -339,7 +354,7 @@ def built_cases(draw):
     for row in desc["well"]:
         if row[0].upper() in ("STRT", "STOP", "STEP", "NULL", "VERS", "WRAP", "DLM"):
             row[0] = row[0] + "X"
-    return {"src": {"desc": desc}, "opts": draw(inputs.WRITER_OPTS), "edits": draw(st.lists(EDIT, max_size=2)),
+    return {"src": {"desc": desc}, "opts": draw(OPTS), "edits": draw(st.lists(EDIT, max_size=2)),
             "writes": draw(st.integers(1, 3)), "read_kw": {}}
 
 
@@ -360,7 +375,7 @@ def read_cases(draw):
     w[0]["u"] = w[1]["u"] = w[2]["u"] = draw(st.sampled_from(["M", "FT", "m", ""]))
     if lastext.is_12(lastext.spec_version(spec)):
         pass
-    case = {"src": {"spec": spec}, "opts": draw(inputs.WRITER_OPTS), "edits": draw(st.lists(EDIT, max_size=2)),
+    case = {"src": {"spec": spec}, "opts": draw(OPTS), "edits": draw(st.lists(EDIT, max_size=2)),
             "writes": draw(st.integers(1, 3)), "read_kw": {"mnemonic_case": draw(st.sampled_from(["upper", "preserve"]))}}
     if draw(st.integers(0, 2)) == 0:
         # edit - write - edit (possibly undoing the first edit) - write ...
